@@ -349,6 +349,10 @@ func rgDepSets(n int) [][]int {
 		}
 		out = append(out, s)
 	}
+	// dependency lists may name the same dependency twice (multiplicity matters for the degree bookkeeping)
+	for i := 0; i < n && i < 2; i++ {
+		out = append(out, []int{i, i})
+	}
 	return out
 }
 
@@ -455,4 +459,61 @@ func TestReplay_GraphOps(t *testing.T) {
 			t.Errorf("REPLAY-CONFIRMED graph/ops category=%s witness: %s", c, found[c])
 		}
 	}
+}
+
+type rgT4 struct{}
+
+// Bounded stand-in "graph/dags": every DAG over <= 5 nodes whose edges go from a higher to a lower index (2^10 graphs at 5 nodes),
+// inserted in ascending and descending order: depths are longest dependency chains, the topological order lists
+// dependencies first, roots/leaves/dependents agree with the reference digraph.
+func TestReplay_GraphDAGs(t *testing.T) {
+	types5 := append(append([]reflect.Type{}, rgTypes...), reflect.TypeOf(rgT4{}))
+	saved := rgTypes
+	rgTypes = types5
+	defer func() { rgTypes = saved }()
+	n := 5
+	if v, err := strconv.Atoi(os.Getenv("GRAPH_DAG_NODES")); err == nil && v <= 5 {
+		n = v
+	}
+	type pair struct{ u, v int }
+	var pairs []pair
+	for u := 1; u < n; u++ {
+		for v := 0; v < u; v++ {
+			pairs = append(pairs, pair{u, v})
+		}
+	}
+	graphs := 0
+	reported := map[string]bool{}
+	for mask := 0; mask < 1<<len(pairs); mask++ {
+		m := &rgModel{nodes: map[int]bool{}, edges: map[int][]int{}}
+		for i := 0; i < n; i++ {
+			m.nodes[i] = true
+		}
+		for i, p := range pairs {
+			if mask&(1<<i) != 0 {
+				m.edges[p.u] = append(m.edges[p.u], p.v)
+			}
+		}
+		for _, descending := range []bool{false, true} {
+			graphs++
+			g := NewDependencyGraph()
+			for j := 0; j < n; j++ {
+				i := j
+				if descending {
+					i = n - 1 - j
+				}
+				g.AddProviderDeferred(&rgProv{i, m.edges[i]})
+			}
+			bad := rgCheckCycle(g, m)
+			bad = append(bad, rgCompare(g, m, true, n)...)
+			for _, b := range bad {
+				cat := b[:strings.Index(b, ":")]
+				if !reported[cat] {
+					reported[cat] = true
+					t.Errorf("REPLAY-CONFIRMED graph/dags category=%s witness: edges=%v descending=%v -> %s", cat, m.edges, descending, b)
+				}
+			}
+		}
+	}
+	t.Logf("graph/dags: %d graphs over %d nodes", graphs, n)
 }
